@@ -50,7 +50,7 @@ pub fn total_budget(sc: &Scenario) -> Option<(u64, Halt, [u64; probe::N])> {
             }
             p.safe_steps
         }
-        Halt::Ended(_) => p.safe_steps + 102 * n + 20,
+        Halt::Ended(_) => p.safe_steps + 2002 * n + 50,
     };
     Some((t, p.halt, p.m.probes))
 }
